@@ -1,20 +1,31 @@
 // Shared helpers for all harness modules (crate::verif_models::common), cfg(kani) only.
-use std::time::{Duration, Instant};
+use std::time::Instant;
 
-/// An Instant `secs` seconds and `nanos` ns after an arbitrary fixed origin.
-/// (std's Instant has no public constructor: a zeroed Timespec is a valid value on Linux.)
+/// Linux `Instant` = Timespec { tv_sec: i64, tv_nsec: u32 (niche-restricted) }, 16 bytes.
+/// Building it by transmute (instead of `zeroed() + Duration`) keeps concrete instants concrete for
+/// CBMC's constant propagation. The layout assumption is itself decided on every run by the
+/// harness `raw_instant_layout_matches_std` (instant_at(t) == zeroed + Duration::new(t) for all t).
+#[repr(C)]
+#[derive(Clone, Copy)]
+struct RawTs { s: i64, n: u32, pad: u32 }
+
+/// An Instant `secs` seconds and `nanos` ns after the harness origin.
 pub(crate) fn instant_at(secs: u64, nanos: u32) -> Instant {
-    let base: Instant = unsafe { std::mem::zeroed() };
-    base + Duration::from_secs(secs) + Duration::from_nanos(nanos as u64)
+    let r = RawTs { s: secs as i64, n: nanos, pad: 0 };
+    unsafe { std::mem::transmute::<RawTs, Instant>(r) }
 }
 
-/// Symbolic time point: seconds < 2^36 (~2000 years), nanoseconds on a coarse grid unless `fine`.
-pub(crate) fn any_time() -> (u64, u32) {
+pub(crate) fn instant_at_std(secs: u64, nanos: u32) -> Instant {
+    let base: Instant = unsafe { std::mem::zeroed() };
+    base + std::time::Duration::new(secs, nanos)
+}
+
+#[kani::proof]
+fn raw_instant_layout_matches_std() {
     let s: u64 = kani::any();
-    kani::assume(s < (1u64 << 36));
     let n: u32 = kani::any();
-    kani::assume(n < 1_000_000_000);
-    (s, n)
+    kani::assume(s < (1u64 << 40) && n < 1_000_000_000);
+    assert!(instant_at(s, n) == instant_at_std(s, n), "VERIF-BOUND: std::time::Instant layout differs from the harness assumption");
 }
 
 pub(crate) fn le(a: (u64, u32), b: (u64, u32)) -> bool {
